@@ -17,16 +17,33 @@ type C14Case struct {
 	Domain string       `json:"domain"` // cnf | card | pb
 	P      *ref.Problem `json:"p"`
 	M      *gen.MaxSat  `json:"m,omitempty"` // domain relaxed: P is the relaxed form of M, which gives the reference optimum
-	AMO    bool         `json:"amo"` // run DetectAtMostOne first
+	AMO    bool         `json:"amo"`         // run DetectAtMostOne first
+	Focus  bool         `json:"focus,omitempty"`
 	Limit  int          `json:"limit,omitempty"`
 }
 
 var c14Counts = map[string]int{"quick": 30_000, "thorough": 600_000}
 
+// c14Focus: after the mixed cases come this many dense cardinality problems (6..10 variables, n..2n constraints of
+// degree around half their length): cheap, and the shape on which a learned constraint that yields top-level units
+// and a remainder is most often met.
+var c14Focus = map[string]int{"quick": 90_000, "thorough": 1_800_000}
+
 func c14Gen(r *gen.Rng, tier string, idx int) interface{} {
+	if idx >= c14Counts[tier] {
+		c := &C14Case{Domain: "card", AMO: r.Chance(1, 4), Limit: []int{0, 0, 3}[r.Intn(3)]}
+		c.P = gen.RandomPBProblem(r, gen.PBOpts{MinVars: 6, MaxVars: 10, CardOnly: true, Hard: true})
+		c.P.N = max(c.P.N, c.P.MaxVar())
+		if r.Chance(1, 4) {
+			c.P.HasCost = true
+			c.P.CostLits, c.P.CostW = gen.RandomCost(r, c.P.MaxVar(), 4, false, false)
+		}
+		c.Focus = true
+		return c
+	}
 	c := &C14Case{Domain: []string{"cnf", "cnf", "card", "pb"}[r.Intn(4)], AMO: r.Chance(1, 3), Limit: []int{0, 0, 3}[r.Intn(3)]}
 	big := r.Chance(1, 6) // larger instances: up to 14 variables, more constraints, larger coefficients
-	if r.Chance(1, 60) { // relaxed MaxSAT with many soft clauses: a long optimisation (hundreds to thousands of conflicts, restarts in the middle of it)
+	if r.Chance(1, 60) {  // relaxed MaxSAT with many soft clauses: a long optimisation (hundreds to thousands of conflicts, restarts in the middle of it)
 		c.Domain = "relaxed"
 		c.AMO = false
 		nv := r.Range(10, 14)
@@ -511,7 +528,7 @@ func c14Run(ci interface{}, rec *Rec) {
 func init() {
 	register(&Prop{
 		ID:       "C14",
-		NumCases: func(tier string) int { return c14Counts[tier] },
+		NumCases: func(tier string) int { return c14Counts[tier] + c14Focus[tier] },
 		Gen:      c14Gen,
 		New:      func() interface{} { return &C14Case{} },
 		Run:      c14Run,
@@ -520,7 +537,7 @@ func init() {
 			InstallCPHooks()
 			solver.VerifHooks.StepBudget = c14Budget() // far above any legitimate search on these sizes (the largest observed run stays below 10% of it)
 		},
-		Rule: "random problems over 2..12 variables in three domains - pure CNF (3-SAT around the threshold, AMO-rich, pigeonhole, mixed), cardinality, PB with signed coefficients - with or without a cost function and with or without prior DetectAtMostOne; each is solved (and, with a cost function, optimised through Optimal and Minimize) with CuttingPlanes off and on: both answers are judged by the truth table and compared with each other; during Solve with the strategy on, every constraint the analysis reports through the verifPB hook (conflict, reason, rounded, resolvent, final, learned constraint, learned top-level units) must be implied by the problem and a top-level conflict requires an unsatisfiable problem; plus pure CNF on 30..50 variables / clause-form pigeonhole under cutting planes (hundreds to thousands of conflicts: Luby restarts, deletion of learned PB constraints; reference by DPLL), and relaxed MaxSAT instances with 40..80 soft clauses (long optimisations with restarts in the middle, reference optimum by exhaustive search over the user variables); a step budget (3e6 loop iterations for the truth-table-sized domains, 6e8 for the large ones; the evidence reports the largest count observed) decides termination. " +
+		Rule: "random problems over 2..12 variables in three domains - pure CNF (3-SAT around the threshold, AMO-rich, pigeonhole, mixed), cardinality, PB with signed coefficients - with or without a cost function and with or without prior DetectAtMostOne; each is solved (and, with a cost function, optimised through Optimal and Minimize) with CuttingPlanes off and on: both answers are judged by the truth table and compared with each other; during Solve with the strategy on, every constraint the analysis reports through the verifPB hook (conflict, reason, rounded, resolvent, final, learned constraint, learned top-level units) must be implied by the problem and a top-level conflict requires an unsatisfiable problem; plus pure CNF on 30..50 variables / clause-form pigeonhole under cutting planes (hundreds to thousands of conflicts: Luby restarts, deletion of learned PB constraints; reference by DPLL), and relaxed MaxSAT instances with 40..80 soft clauses (long optimisations with restarts in the middle, reference optimum by exhaustive search over the user variables); then three times as many dense cardinality problems (6..10 variables, n..2n constraints of degree about half their length, no large instance among them), the shape on which a learned constraint that yields both top-level units and a remainder is most often met; a step budget (3e6 loop iterations for the truth-table-sized domains, 6e8 for the large ones; the evidence reports the largest count observed) decides termination. " +
 			"non-trivial = problem with >= 3 constraints; distinct by problem and options",
 		Assumptions: []string{
 			"reference truth table of internal/ref",
